@@ -153,4 +153,3 @@ func cmdList(args []string) {
 		fmt.Printf("%-70s %v%s\n", e.shortName(k), fc.Props, tag)
 	}
 }
-
